@@ -1,6 +1,7 @@
 /-
   C09  Logout is final.
 -/
+import AuthProofs.StateInventory
 import AuthProofs.Ladder
 import AuthProofs.CodeEquivOidc
 import AuthProofs.StoreSeq
@@ -216,6 +217,9 @@ theorem code_path_matchers (env : Go.Env) (c : Pb.OIDCConfig) (h : Pb.AttributeC
 example : Code.matchesLogoutPath {} { Logout := { isNil := false, Path := B "/logout" } } { Path := B "/logout?x=1#f" } = .ok true := by decide
 example : Code.matchesLogoutPath {} { Logout := { isNil := false, Path := B "/logout" } } { Path := B "/logout/x" } = .ok false := by decide
 
+/-- NO HIDDEN STATE: the model treats a check as a function of (configuration, request, store answers, clock, IdP and key-source answers, entropy); that is a faithful reading of the code only if nothing else survives from one check to the next. Regenerated on every run: every package-level variable and struct field of internal/server, internal/authz, internal/http, internal/oidc is the classified expectation, and handlers, filter, HTTP helpers and the Redis store own no mutable state (no verdict cache, handler cache, object pool, single-flight group or per-process copy of session data). -/
+theorem no_hidden_state : CheckPathInventory := check_path_inventory
+
 end AuthProps.C09
 
 #print axioms AuthProps.C09.logout_answer
@@ -233,3 +237,4 @@ end AuthProps.C09
 #print axioms AuthProps.C09.discovery_refuses_logout_without_uri
 #print axioms AuthProps.C09.finality_characterisation
 #print axioms AuthProps.C09.code_path_matchers
+#print axioms AuthProps.C09.no_hidden_state
